@@ -42,6 +42,7 @@ LIKELY = {
     "transformations/splot_writer.py": ["C10", "C12"], "transformations/uvl_reader.py": ["C04", "C01", "C02"],
     "transformations/uvl_writer.py": ["C01", "C12"], "transformations/xml_reader.py": ["C09", "C02"],
 }
+EXTRA = "--extra" in sys.argv      # second family of operators: format tokens, return None, loops that skip an element
 SKIP_FUNCS = {"__str__", "__repr__", "get_extension", "get_source_extension", "get_destination_extension"}
 CMP = {ast.Lt: ast.LtE, ast.LtE: ast.Lt, ast.Gt: ast.GtE, ast.GtE: ast.Gt, ast.Eq: ast.NotEq, ast.NotEq: ast.Eq,
        ast.Is: ast.IsNot, ast.IsNot: ast.Is, ast.In: ast.NotIn, ast.NotIn: ast.In}
@@ -123,6 +124,13 @@ def sites(path: str, rel: str) -> list[dict]:
                 add(node, "constant", repr(not v), func)
             elif isinstance(v, int):
                 add(node, "constant", repr(v + 1 if v != 1 else 0), func)
+            elif EXTRA and isinstance(v, str) and 0 < len(v) <= 14 and rel.startswith("transformations/") and "\n" not in v:
+                add(node, "string-token", repr(v + "x" if v.strip() else v + "_"), func)     # a keyword / separator / tag of a format
+        if EXTRA and isinstance(node, ast.Return) and node.value is not None and func and not isinstance(node.value, ast.Constant):
+            add(node.value, "return-none", "None", func)
+        if EXTRA and isinstance(node, ast.For) and func:
+            add(node.iter, "skip-first", f"list({unp(node.iter)})[1:]", func)
+            add(node.iter, "skip-last", f"list({unp(node.iter)})[:-1]", func)
         if isinstance(node, ast.Call) and func and len(node.args) >= 2 and not node.keywords and all(
                 isinstance(a, (ast.Name, ast.Attribute, ast.Call, ast.Subscript)) for a in node.args[:2]) \
                 and unp(node.args[0]) != unp(node.args[1]):
@@ -227,6 +235,9 @@ def main() -> int:
         for k, c in sorted(Counter((s["file"], s["kind"]) for s in allsites).items()):
             print(k, c)
         return 0
+    if EXTRA:
+        allsites = [s_ for s_ in allsites if s_["kind"] in ("string-token", "return-none", "skip-first", "skip-last")]
+        print(f"{len(allsites)} sites of the second family", flush=True)
     rnd = random.Random(seed)
     byfile: dict[str, list[dict]] = {}
     for s in allsites:
